@@ -53,6 +53,7 @@ class ArrayOpSpec(FuncSpec):
 @register
 class Repeat(ArrayOpSpec):
     """repeat(x, repeats, axis): result[.., j, ..] == x[.., j // repeats, ..]"""
+    quick_props = ('C01', 'C17', 'C12')
 
     target = f"{MF}:repeat"
 
@@ -85,6 +86,7 @@ class Repeat(ArrayOpSpec):
 @register
 class Stack(ArrayOpSpec):
     """stack(arrays, axis): result[.., j, ..] == arrays[j][..]  (NumPy requires equal shapes)"""
+    quick_props = ('C01',)
 
     target = f"{MF}:stack"
 
@@ -127,6 +129,7 @@ class Stack(ArrayOpSpec):
 
 @register
 class Unstack(ArrayOpSpec):
+    quick_props = ('C12',)
     target = f"{MF}:unstack"
 
     def configs(self, tier):
@@ -150,6 +153,7 @@ class ReshapeChunks(ArrayOpSpec):
     """reshape_chunks(x, shape, chunks) — internal helper; contract for its single-block call site in `reshape`
     (x.npartitions == 1, chunks = one block per axis). The multi-block call site goes through the vendored dask
     `reshape_rechunk` planner, which is outside the modelled subset (not covered)."""
+    quick_props = ('C17',)
 
     target = f"{MF}:reshape_chunks"
     props = ("C12", "C17")
@@ -177,6 +181,7 @@ class ReshapeChunks(ArrayOpSpec):
 
 @register
 class ExpandDims(ArrayOpSpec):
+    quick_props = ('C12',)
     target = f"{MF}:expand_dims"
 
     def configs(self, tier):
@@ -195,6 +200,7 @@ class ExpandDims(ArrayOpSpec):
 
 @register
 class PermuteDims(ArrayOpSpec):
+    quick_props = ('C01',)
     target = f"{MF}:permute_dims"
 
     def configs(self, tier):
